@@ -173,6 +173,10 @@ struct StreamBase {
         };
         if (vf::events_total()) fail("heap-event", vf::g_alloc.first_event);
         for (int s = 0; s < NS; ++s) {
+            std::string fd = const_cast<hx::Slot<SS> &>(slots[s]).fence_damage();
+            if (!fd.empty()) fail("write-outside-object", strf("s%d: %s", s, fd.c_str()));
+        }
+        for (int s = 0; s < NS; ++s) {
             if (!slots[s].alive) continue;
             auto v = validity(s);
             const char *role = s == tgt ? "target" : s == src_moved ? "moved-from" : "bystander";
@@ -405,6 +409,10 @@ struct StreamSys : StreamBase {
                 f.push_back(Fail{"c16:" + what, strf("s%d size %zu: %s", s, z, detail.c_str())});
             });
         }
+        for (int s = 0; s < NS; ++s) {
+            std::string fd = slots[s].fence_damage();
+            if (!fd.empty()) f.push_back(Fail{"c16:read:write-outside-object", strf("s%d: %s (while reading raw_buffer()/to_string())", s, fd.c_str())});
+        }
         if (sample_list.size() < 5 && nontrivial()) sample_list.push_back(key());
     }
 };
@@ -584,6 +592,10 @@ struct OverloadSys : StreamBase {
         check_to_string(*slots[0].obj(), model[0], [&](const std::string &what, const std::string &detail) {
             f.push_back(Fail{"c16:" + what, strf("size %zu: %s", model[0].size(), detail.c_str())});
         });
+        {
+            std::string fd = slots[0].fence_damage();
+            if (!fd.empty()) f.push_back(Fail{"c16:read:write-outside-object", strf("s0: %s (while reading raw_buffer()/to_string())", fd.c_str())});
+        }
         if (sample_list.size() < 5 && nontrivial()) sample_list.push_back(key());
     }
 };
